@@ -306,13 +306,16 @@ Theorem prim_clauses_hold : forall sc, scene_ok sc ->
 Proof. exact prim_clauses_run. Qed.
 Print Assumptions prim_clauses_hold.
 
-(* the models half cannot be proved as it stands: "material-content" is FALSE of the faithful model (and of
-   the code: fixes/C06-texture-equal-ignores-extensions): PolyformTexture.equal ignores texture
-   extensions, so two materials differing only there are merged *)
+(* documentation of the defect repaired by /repo 31c30a5 (found while proving "material-content"): the
+   PINNED texture equality [ptex_equal_pinned] (URI and sampler settings only) calls two textures equal
+   whose extension lists differ, so two materials differing only there were merged; with the repaired
+   equality ([ptex_equal]: also the extension values and the sampler name) the materials differ and the
+   witness scene's document passes the whole checker *)
 Theorem material_content_refuted :
-  exists sc, scene_ok sc /\ scene_ptr_ok sc /\ scene_rejected sc = false /\
-             gltf_check_struct sc (obs_text sc) = [] /\
-             In "material-content"%string (gltf_check_models sc (obs_text sc)) /\ gltf_validb sc (obs_text sc) = false.
+  ptex_equal_pinned (Some tx_transformed) (Some tx_plain) = true /\ tx_exts tx_transformed <> tx_exts tx_plain /\
+  mat_equal (mat_with 0 tx_transformed) (mat_with 1 tx_plain) = false /\
+  scene_ok tex_ext_scene /\ scene_ptr_ok tex_ext_scene /\ scene_rejected tex_ext_scene = false /\
+  gltf_validb tex_ext_scene (obs_text tex_ext_scene) = true.
 Proof. exact material_content_refuted_witness. Qed.
 Print Assumptions material_content_refuted.
 
